@@ -25,6 +25,8 @@ DOCS = [
     "<r> <a> </a> </r>",
     '<r a="1" b="2"><a id="x">t<b n="1" m=""/>u</a><!--c--><c k="v w"/>z</r>',
     '<p:r xmlns:p="urn:p" xmlns:q="urn:q" n="0"><p:item n="1" q:ref="r">text<!--c--><plain n="2" p:n="3"/>tail</p:item>end</p:r>',
+    # comments / PIs that are equal to each other (they compare by content), with text behind them
+    "<p><!--x--><a/><!--x-->tail<b/><?t d?>u<?t d?>v<!--x-->w</p>",
     # namespaces the library knows by itself (COMMON_NAMESPACES)
     '<html xmlns="http://www.w3.org/1999/xhtml"><body><p>t</p><svg xmlns="http://www.w3.org/2000/svg"><g/>u</svg>v</body></html>',
 ]
